@@ -206,14 +206,34 @@ def main(a):
         if lockf is None:
             lockf = open(os.path.join(common_scratch_root(), "hbsverif-kani-0.lock"), "w")
             fcntl.flock(lockf, fcntl.LOCK_EX)
-        with Scratch("kani-" + pid) as sc:
+        # build configurations are independent crates builds: each gets its own scratch copy and they run side by side
+        # (VERIF_KANI_PAR_CFGS at a time; the cores are shared out between them)
+        from concurrent.futures import ThreadPoolExecutor as _TPE
+        groups = sorted(by_cfg.items(), key=lambda kv: -max(h.declared_timeout for h in kv[1]))
+        par = max(1, min(len(groups), int(os.environ.get("VERIF_KANI_PAR_CFGS", "3"))))
+        per_group_jobs = max(2, min(kani_engine.MAX_JOBS, (NCPU - 2) // par))
+        scratches = []
+
+        def _go(item):
+            (cfg_, kargs_), hs_ = item
+            scg = Scratch("kani-%s-%s" % (pid, cfg_))
+            scratches.append(scg)
             try:
-                inject_summary = kani_engine.prepare(sc)
+                summ = kani_engine.prepare(scg.path)
             except kani_engine.Undecided as e:
-                undecided.append(("kani-inject", str(e)))
-                by_cfg = {}
-            for (cfg, kargs), hs in by_cfg.items():
-                results, info = kani_engine.run_group(sc, cfg, hs, extra_args=kargs.split() if kargs else None)
+                return item, scg.path, None, None, str(e)
+            res_, info_ = kani_engine.run_group(scg.path, cfg_, hs_, jobs=min(per_group_jobs, max(1, len(hs_))),
+                                                extra_args=kargs_.split() if kargs_ else None)
+            return item, scg.path, res_, info_, summ
+        try:
+            with _TPE(max_workers=par) as ex:
+                group_results = list(ex.map(_go, groups))
+            for ((cfg, kargs), hs), sc, results, info, summ in group_results:
+                if results is None:
+                    undecided.append(("kani-inject", summ))
+                    continue
+                if inject_summary is None:
+                    inject_summary = summ
                 checker_cmds.append(info["cmd"])
                 for h in hs:
                     r = results[h.name]
@@ -259,6 +279,9 @@ def main(a):
                             violations.append({"unit": h.name, "engine": "kani", "failed": unmatched, "cex": cex,
                                                "kind": h.kind, "contract": h.contract, "funcs": h.funcs})
                     units_ev.append(ev)
+        finally:
+            for scg in scratches:
+                scg.__exit__(None, None, None)
 
     # ---------------------------------------------------------------- verdict
     lines = []
